@@ -167,6 +167,42 @@ def _pair_cases(tier, rng):
         yield {"kind": "all-pairs", "seed": seed, "i": i}
     yield {"kind": "two-interpreters", "seed": rng.randrange(10**6)}
     yield {"kind": "memoize", "seed": rng.randrange(10**6)}
+    for _ in range(6 if tier == "quick" else 60):
+        yield {"kind": "mutation-history", "seed": rng.randrange(10**6)}
+
+
+def _mutate(v, rng):
+    """Change v in place into an unequal value of the same type; False when v cannot be changed in place."""
+    import numpy as np
+    import pandas as pd
+    if isinstance(v, Point):
+        v.x = ("changed", v.x)
+    elif isinstance(v, (list, collections.deque)):
+        if isinstance(v, collections.deque) and v.maxlen is not None and len(v) == v.maxlen:
+            v[0] = ("changed", v[0])
+        else:
+            v.append("changed")
+    elif isinstance(v, collections.Counter):
+        v["changed"] += 1
+    elif isinstance(v, dict):
+        v["changed"] = 1
+    elif isinstance(v, set):
+        v.add("changed")
+    elif isinstance(v, bytearray):
+        v.append(7)
+    elif isinstance(v, array.array):
+        v.append(7)
+    elif isinstance(v, np.ndarray):
+        if v.size == 0 or v.dtype.kind not in "if":
+            return False
+        v.flat[0] += 1
+    elif isinstance(v, pd.DataFrame):
+        v.iloc[0, 0] += 1
+    elif isinstance(v, pd.Series):
+        v.iloc[0] += 1
+    else:
+        return False
+    return True
 
 
 _CHILD = r"""
@@ -288,6 +324,34 @@ def _check(case):
             if a != b:
                 bad.append(f"key differs between interpreters for {v!r}: {a[:80]} vs {b[:80]}")
         return bad[:8]
+    if case["kind"] == "mutation-history":
+        # the key is a function of the value alone: after a change in place the object has the key of its new value
+        # (the key of a fresh equal object), not the key it had before
+        import copy
+        vals = pool("quick", rng)
+        rng.shuffle(vals)
+        n = 0
+        for v in vals:
+            try:
+                v = copy.deepcopy(v)
+                k0 = to_hashable(v)
+                if not _mutate(v, rng):
+                    continue
+                k1 = to_hashable(v)
+                k2 = to_hashable(copy.deepcopy(v))
+                k3 = to_hashable(v)
+            except Exception as e:  # noqa: BLE001
+                bad.append(f"key of a value changed in place raised {type(e).__name__}: {str(e)[:80]} ({v!r})")
+                continue
+            n += 1
+            if k1 != k2 or k3 != k2:
+                bad.append(f"different-keys-for-equal-values: {v!r} after a change in place vs a fresh equal object"
+                           + _pandas_tag(v))
+            if k1 == k0:
+                bad.append(f"equal-keys-for-different-values: {v!r} keeps the key it had before it was changed in place"
+                           + _pandas_tag(v))
+        _check.n_mutated = n
+        return bad[:6]
     # memoize: a stored result is returned only for equal arguments
     vals = pool("quick", rng)
     calls: list = []
